@@ -82,7 +82,7 @@ def attr_values(c, doc):
     par = int(hashlib.blake2b(repr(doc).encode(), digest_size=2).hexdigest(), 16)
     out = []
     for i, a in enumerate(c["attrs"]):
-        present = a["mode"] == "REQUIRED" or ((par >> i) & 1) == 1
+        present = a["mode"] == "REQUIRED" or ((par >> i) & 1) == 1 or a["name"].startswith("xmlns")
         if not present:
             continue
         if a["name"] == "r" and not any(x["name"] == "id" for x in c["attrs"]):
@@ -118,11 +118,27 @@ def validate(dtd, xml):
 
 
 def expected_attrs(c, doc):
+    """Attributes by expanded name; xmlns declarations are not attributes."""
     exp = dict(attr_values(c, doc))
     for a in c["attrs"]:
         if a["name"] not in exp and a["mode"] in ("FIXED", "DEFAULT"):
             exp[a["name"]] = a["value"]
-    return exp
+    ns = {a["name"][6:]: a["value"] for a in c["attrs"] if a["name"].startswith("xmlns:")}
+    out = {}
+    for k, v in exp.items():
+        if k.startswith("xmlns"):
+            continue
+        pfx, _, local = k.rpartition(":")
+        out[(ns[pfx] if pfx else "", local)] = v
+    return out
+
+
+def default_ns(c):
+    return next((a["value"] for a in c["attrs"] if a["name"] == "xmlns"), None)
+
+
+def has_namespaces(c) -> bool:
+    return any(a["name"].startswith("xmlns") for a in c["attrs"])
 
 
 def flat(tree):
@@ -131,7 +147,7 @@ def flat(tree):
     def walk(el, path):
         kids = [k for k in el["content"] if isinstance(k, dict)]
         text = "".join(k for k in el["content"] if isinstance(k, str))
-        out.append((path, el["name"][1], text if not kids else text.strip()))
+        out.append((path, tuple(el["name"]), text if not kids else text.strip()))
         for k in kids:
             walk(k, path + "/" + el["name"][1])
 
@@ -190,12 +206,19 @@ def run(ctx):
                         out = XmlSerializer(context=xctx, config=SerializerConfig(xml_declaration=False)).render(obj)
                         tin, tout = infoset.parse(xml), infoset.parse(out)
                     except Exception as ex:  # noqa: BLE001
-                        ctx.violation(f"DTD-valid document does not parse/serialise under strict settings ({oname}): {type(ex).__name__}: {ex}", dinfo)
+                        tags = ["F39"] if default_ns(c) and f"Unknown property Root:{{{default_ns(c)}}}" in str(ex) else []
+                        ctx.violation(f"DTD-valid document does not parse/serialise under strict settings ({oname}): {type(ex).__name__}: {ex}", {**dinfo, "finding_tags": tags})
                         continue
                     fin, fout = flat(tin), flat(tout)
                     if sorted(fin) != sorted(fout):
-                        ctx.violation(f"elements / values differ ({oname}): lost {[x for x in fin if x not in fout][:4]}, invented {[x for x in fout if x not in fin][:4]}", {**dinfo, "out": out})
-                    got_attrs = {k[1]: v for k, v in tout["attrs"].items()}
+                        # F39: exactly the default namespace of element names is lost, everything else equal
+                        same_locals = sorted((p_, n[1], t) for p_, n, t in fin) == sorted((p_, n[1], t) for p_, n, t in fout)
+                        tags = ["F39"] if default_ns(c) and same_locals else []
+                        ctx.violation(f"elements / values differ ({oname}): lost {[x for x in fin if x not in fout][:4]}, invented {[x for x in fout if x not in fin][:4]}", {**dinfo, "out": out, "finding_tags": tags})
+                    got_attrs = {tuple(k): v for k, v in tout["attrs"].items()}
+                    if tuple(tin["name"]) != tuple(tout["name"]):
+                        tags = ["F39"] if default_ns(c) and tuple(tin["name"]) == (default_ns(c), "Root") and tuple(tout["name"]) == ("", "Root") else []
+                        ctx.violation(f"root element changed: {tout['name']} vs {tin['name']}", {**dinfo, "out": out, "finding_tags": tags})
                     exp = expected_attrs(c, doc)
                     if got_attrs != exp:
                         ctx.violation(f"attributes: output has {got_attrs}, the DTD prescribes {exp}", {**dinfo, "out": out})
@@ -207,7 +230,9 @@ def run(ctx):
                     if c["op"] and oname == "compound" and c["variant"] == "model":
                         if fin != fout:
                             ctx.violation("element order not preserved although repetition is confined to single elements / choices of single elements", {**dinfo, "out": out})
-                        ok2, log2 = validate(dtd, out)
+                        # (a DTD knows prefixes, not namespaces: an output that spells the same namespaces with
+                        #  other prefixes cannot be re-validated against it)
+                        ok2, log2 = (True, "") if has_namespaces(c) else validate(dtd, out)
                         if not ok2:
                             ctx.violation(f"output is not DTD-valid: {log2}", {**dinfo, "out": out})
             finally:
